@@ -422,7 +422,7 @@ static std::vector<OStep> parse_own(Toks& in)
         s.op = in.str();
         auto const& o = s.op;
         if (o != "vsw" && o != "fsw") { s.t = static_cast<int>(in.num()); }
-        if (o == "vem" || o == "var" || o == "vac" || o == "vav" || o == "vat" || o == "fas") {
+        if (o == "vem" || o == "var" || o == "vac" || o == "vav" || o == "vat" || o == "fas" || o == "vvc" || o == "vvm") {
             s.j = static_cast<int>(in.num());
             s.x = static_cast<int>(in.num());
         }
@@ -517,9 +517,13 @@ struct OptAd {
         else if (op == "vmc") { Obj c(etl::move(x)); }
         else if (op == "vsw") { v[0]->swap(*v[1]); }
         else if (op == "vss") { x.swap(x); }
+        else if (op == "vvm") { E d(s.x); { E r = etl::move(x).value_or(etl::move(d)); (void)r; } }
+        else if (op == "vom") { auto r = etl::move(x).or_else([] { return Obj{}; }); (void)r; }
         else {
             if constexpr (E::copyable) {
-                if (op == "vca") { x = y; }
+                if (op == "vvc") { E d(s.x); { E r = x.value_or(d); (void)r; } }
+                else if (op == "voc") { auto r = x.or_else([] { return Obj{}; }); (void)r; }
+                else if (op == "vca") { x = y; }
                 else if (op == "vsc") { auto& r = x; x = r; }
                 else if (op == "vcc") { Obj c(x); }
             }
@@ -552,9 +556,11 @@ struct ExpAd {
         else if (op == "vmc") { Obj c(etl::move(x)); }
         else if (op == "vsw") { etl::swap(*v[0], *v[1]); }
         else if (op == "vss") { etl::swap(x, x); }
+        else if (op == "vvm") { A d(s.x); { A r = etl::move(x).value_or(etl::move(d)); (void)r; } }
         else {
             if constexpr (A::copyable) {
-                if (op == "vca") { x = y; }
+                if (op == "vvc") { A d(s.x); { A r = x.value_or(d); (void)r; } }
+                else if (op == "vca") { x = y; }
                 else if (op == "vsc") { auto& r = x; x = r; }
                 else if (op == "vcc") { Obj c(x); }
             }
@@ -592,6 +598,8 @@ struct FunAd {
         else if (op == "fsm") { auto& r = x; x = etl::move(r); }
         else if (op == "fcc") { Obj c(x); }
         else if (op == "fmc") { Obj c(etl::move(x)); }
+        else if (op == "fxc") { etl::inplace_function<int(int*), 32> c(x); }
+        else if (op == "fxm") { etl::inplace_function<int(int*), 32> c(etl::move(x)); }
         else if (op == "fsw") { v[0]->swap(*v[1]); }
         else if (op == "fss") { x.swap(x); }
         else if (op == "fiv") { (void)x(nullptr); }
@@ -704,7 +712,7 @@ static bool own_case(std::string const& op, Toks& in, Out& impl, Out& ref)
             else if (o == "vca" || o == "vma" || o == "fca") { idx[s.t] = idx[1 - s.t]; }
             else if (o == "fma") { idx[s.t] = idx[1 - s.t]; idx[1 - s.t] = 0; }
             else if (o == "vsw" || o == "fsw") { std::swap(idx[0], idx[1]); }
-            else if (o == "fan" || o == "fmc") { idx[s.t] = 0; }
+            else if (o == "fan" || o == "fmc" || o == "fxm") { idx[s.t] = 0; }
             else if (o == "fiv") { if (idx[s.t] == 0) { dom = false; break; } }
             if (own_is_self(o)) { selfs += " 1"; }
         }
@@ -726,6 +734,8 @@ struct PairAd {
     static auto make(void* where, int c) -> Obj* { return new (where) Obj(10 * (c + 1), 10 * (c + 1) + 1); }
     static auto values(Obj const& p) -> std::vector<int> { return {p.first.v, p.second.v}; }
     static void swap(Obj& a, Obj& b) { a.swap(b); }
+    static constexpr bool by_tag      = true;
+    static constexpr std::size_t elem = 1;
 };
 
 template <template <int> class T>
@@ -735,6 +745,25 @@ struct TupleAd {
     static auto make(void* where, int c) -> Obj* { return new (where) Obj(10 * (c + 1), 10 * (c + 1) + 1, 10 * (c + 1) + 2); }
     static auto values(Obj const& p) -> std::vector<int> { return {etl::get<0>(p).v, etl::get<1>(p).v, etl::get<2>(p).v}; }
     static void swap(Obj& a, Obj& b) { a.swap(b); }
+    static constexpr bool by_tag      = true;
+    static constexpr std::size_t elem = 1;
+};
+
+// T a[3]: etl::swap(T (&)[N], T (&)[N]) element by element; everything else is the compiler's member-wise code
+template <template <int> class T>
+struct ArrayAd {
+    struct Obj {
+        T<0> a[3];
+    };
+    static constexpr bool copyable = T<0>::copyable;
+    static constexpr bool by_tag   = false;
+    static constexpr std::size_t elem = sizeof(T<0>);
+    static auto make(void* where, int c) -> Obj*
+    {
+        return new (where) Obj{{T<0>(10 * (c + 1)), T<0>(10 * (c + 1) + 1), T<0>(10 * (c + 1) + 2)}};
+    }
+    static auto values(Obj const& p) -> std::vector<int> { return {p.a[0].v, p.a[1].v, p.a[2].v}; }
+    static void swap(Obj& x, Obj& y) { etl::swap(x.a, y.a); }
 };
 
 static bool agg_is_self(std::string const& op) { return op == "asc" || op == "asm" || op == "ass"; }
@@ -748,10 +777,15 @@ static void run_agg(std::vector<OStep> const& steps, Out& impl, bool monitor_onl
     alignas(Obj) static unsigned char raw0[sizeof(Obj)];
     alignas(Obj) static unsigned char raw1[sizeof(Obj)];
     trk::Locator where;
-    where.by_tag = true;
+    where.by_tag = Ad::by_tag;
     where.regions.resize(2);
-    where.regions[0] = trk::Region{reinterpret_cast<char const*>(raw0), sizeof(Obj), 1};
-    where.regions[1] = trk::Region{reinterpret_cast<char const*>(raw1), sizeof(Obj), 1};
+    if (Ad::by_tag) {
+        where.regions[0] = trk::Region{reinterpret_cast<char const*>(raw0), sizeof(Obj), 1};
+        where.regions[1] = trk::Region{reinterpret_cast<char const*>(raw1), sizeof(Obj), 1};
+    } else {
+        where.regions[0] = trk::Region{reinterpret_cast<char const*>(raw0), Ad::elem, sizeof(Obj) / Ad::elem};
+        where.regions[1] = trk::Region{reinterpret_cast<char const*>(raw1), Ad::elem, sizeof(Obj) / Ad::elem};
+    }
     Obj* v[2] = {Ad::make(raw0, 0), Ad::make(raw1, 1)};
     trk::Monitor mon;
     std::size_t done = 0;
@@ -805,6 +839,7 @@ static bool agg_dispatch(std::string const& kind, std::vector<OStep> const& step
 {
     if (kind == "pr") { run_agg<PairAd<T>>(steps, impl, monitor_only); return true; }
     if (kind == "tp") { run_agg<TupleAd<T>>(steps, impl, monitor_only); return true; }
+    if (kind == "ar") { run_agg<ArrayAd<T>>(steps, impl, monitor_only); return true; }
     return false;
 }
 
